@@ -991,6 +991,25 @@ pub fn replay(v: &Value) -> i32 {
             check_copy_source(&mut r, w["bucket"].as_str().unwrap_or(""), w["key"].as_str().unwrap_or(""), w["version"].as_str(), &mut failing, Some("replay"));
         }
         "mime" => check_mime(&mut r, w["text"].as_str().unwrap_or("")),
+        "e2e-header" => {
+            let (kind, text) = (w["header_kind"].as_str().unwrap_or(""), w["text"].as_str().unwrap_or(""));
+            let direct = match kind {
+                "range" => std::panic::catch_unwind(|| Range::parse(text).ok().map(|x| format!("{x:?}"))).ok().flatten(),
+                "copy-source" => std::panic::catch_unwind(|| CopySource::parse(text).ok().map(|x| format!("{x:?}"))).ok().flatten(),
+                _ => None,
+            };
+            e2e_header(&mut r, kind, text, direct, 1);
+        }
+        "range-check" => {
+            // "Int(3, Some(5))" / "Int(3, None)" / "Suffix(7)"
+            let t = w["range"].as_str().unwrap_or("");
+            let nums: Vec<u64> = t.split(|c: char| !c.is_ascii_digit()).filter(|x| !x.is_empty()).filter_map(|x| x.parse().ok()).collect();
+            let rr = if t.starts_with("Suffix") { nums.first().map(|n| RefRange::Suffix(*n)) } else { nums.first().map(|f| RefRange::Int(*f, nums.get(1).copied())) };
+            match rr {
+                Some(rr) => check_range_check(&mut r, rr, w["len"].as_u64().unwrap_or(0), "replay"),
+                None => harness_error("C14: cannot read the range of this witness"),
+            }
+        }
         k => harness_error(&format!("C14: cannot replay witness kind {k:?}")),
     }
     super::replay_verdict("C14", &r)
